@@ -186,6 +186,24 @@ static int check_roundtrip(const unsigned char *m, size_t n)
       if (r != 0 || cons != tmp2.len || nst != n || memcmp(st, m, n)) { snprintf(failmsg, sizeof failmsg, "decode(qmail-remote encode(m)) != m for a CR-free message"); return 0; }
       ++vf_cls[7];
     }
+    /* the client cannot read the queued message beyond the start of one of its lines (I/O error on the message file): whatever it has put
+       on the wire by then must not look like a complete message to the server - decode(encode(m)) is m or nothing, never a prefix of m
+       (added after seeded change C05-M) */
+    {
+      size_t k, nl = 0, pick, at = 0;
+      for (k = 0; k < n; ++k) if (m[k] == '\n') ++nl;
+      pick = nl ? (n * 7 + nl) % nl : 0;            /* deterministic choice of the line start (0 = the very first read fails) */
+      for (k = 0, nl = 0; k < n && nl < pick; ++k) if (m[k] == '\n') { ++nl; at = k + 1; }
+      if (at < n) {
+        vb_reset(&tmp1); vb_put(&tmp1, m, n);
+        if (vq_remote_blast(tmp1.s, n, 0, 0, (int)at, &w, &nw, &rep, &nrep, &crit) == 0) {
+          vb_reset(&tmp2); vb_put(&tmp2, w, nw);
+          r = vq_smtpd_blast(tmp2.s, tmp2.len, 0, 0, &st, &nst, &cons, &rp, &nrp, &ec, &hops);
+          if (r == 0) { snprintf(failmsg, sizeof failmsg, "read error at the line start %zu of a %zu-byte message: the client completed DATA and the server stored %zu bytes (a truncated message accepted as complete)", at, n, nst); return 0; }
+        }
+        ++vf_cls[5];
+      }
+    }
   }
   return 1;
 }
